@@ -55,8 +55,8 @@ def run_case(case):
 def cases(draw):
     specs = draw(rx.legal_stream(max_msgs=5, big=draw(st.integers(0, 3)) == 0))
     fire = draw(st.booleans())
-    driver = draw(st.sampled_from(["data", "data_frame"] if fire else ["data", "data_frame", "recv"]))
-    cf = draw(st.booleans()) if driver != "recv" else False
+    driver = draw(st.sampled_from(["data", "data_frame"] if fire else ["data", "data_frame", "recv", "next", "iter"]))
+    cf = draw(st.booleans()) if driver not in rx.RECVS else False
     wire, frames, ends = rx.wire_of(specs)
     cuts = draw(rx.cutset(len(wire), ends)) if draw(st.integers(0, 3)) == 0 else []
     return {"frames": specs, "driver": driver, "cf": cf, "fire": fire, "skip": draw(st.booleans()), "cuts": cuts}
